@@ -1,8 +1,8 @@
 #!/bin/bash
 # usage: sens.sh <patch.diff> <ID> [<ID>...]  -- apply a breaking change to /repo, run the quick checks, always revert.
-P=$1; shift
+P=$(realpath "$1"); shift
 cd /repo && git diff --quiet || { echo "repo dirty"; exit 9; }
-git -C /repo apply "$P" || { echo "patch does not apply"; exit 9; }
+git -C /repo apply "$(realpath "$P")" || { echo "patch does not apply"; exit 9; }
 trap 'git -C /repo checkout -- .' EXIT
 cd /verif
 for id in "$@"; do
